@@ -62,7 +62,12 @@ func ctrlLoopFromConfig(dir string, in ctrlIn, fan fans.Fan) control_loop.Contro
 	yaml := "dbPath: " + filepath.Join(dir, "fan2go.db") + "\nfans:\n  - id: f\n    curve: stub\n    file:\n      path: " +
 		filepath.Join(dir, "cfgpwm") + "\n" + ctrlAlgYaml(in) +
 		"  - id: sibling\n    curve: stub\n    file:\n      path: " + filepath.Join(dir, "sibpwm") + "\n" + ctrlAlgYaml(in)
+	// ... and a third fan with EXPLICIT pid gains of its own (only present, never cycled): the defaults other fans get
+	// must not depend on it, whichever order the start-up glue visits the fans in
+	yaml += "  - id: tuned\n    curve: stub\n    file:\n      path: " + filepath.Join(dir, "tunedpwm") +
+		"\n    controlAlgorithm:\n      pid:\n        p: 2.5\n        i: 0.75\n        d: 0.125\n"
 	_ = os.WriteFile(filepath.Join(dir, "sibpwm"), []byte("0"), 0o644)
+	_ = os.WriteFile(filepath.Join(dir, "tunedpwm"), []byte("0"), 0o644)
 	if err := os.WriteFile(path, []byte(yaml), 0o644); err != nil {
 		panic(err)
 	}
@@ -72,8 +77,13 @@ func ctrlLoopFromConfig(dir string, in ctrlIn, fan fans.Fan) control_loop.Contro
 		panic("cfg_alg: read: " + err.Error())
 	}
 	configuration.LoadConfig()
-	if len(configuration.CurrentConfig.Fans) != 2 {
-		panic("cfg_alg: expected two fan entries")
+	if len(configuration.CurrentConfig.Fans) != 3 {
+		panic("cfg_alg: expected three fan entries")
+	}
+	tunedCfg := configuration.CurrentConfig.Fans[2]
+	tunedFan, terr := fans.NewFan(tunedCfg)
+	if terr != nil {
+		panic("cfg_alg: tuned: " + terr.Error())
 	}
 	sibCfg := configuration.CurrentConfig.Fans[1]
 	sibFan, err := fans.NewFan(sibCfg)
@@ -83,7 +93,7 @@ func ctrlLoopFromConfig(dir string, in ctrlIn, fan fans.Fan) control_loop.Contro
 	reg := prometheus.NewRegistry()
 	prometheus.DefaultRegisterer, prometheus.DefaultGatherer = reg, reg
 	curves.RegisterSpeedCurve(&ctrlStubCurve{})
-	ctrls, err := internal.VerifInitializeFanControllers(nil, map[configuration.FanConfig]fans.Fan{configuration.CurrentConfig.Fans[0]: fan, sibCfg: sibFan})
+	ctrls, err := internal.VerifInitializeFanControllers(nil, map[configuration.FanConfig]fans.Fan{configuration.CurrentConfig.Fans[0]: fan, sibCfg: sibFan, tunedCfg: tunedFan})
 	if err != nil {
 		panic("cfg_alg: " + err.Error())
 	}
